@@ -25,8 +25,9 @@ type Val struct {
 }
 
 const (
-	addrObj  = iota // (Base ref, Obj type, Path) — Path=="" means the whole object
-	addrElem        // element of slice/array backing store
+	addrObj    = iota // (Base ref, Obj type, Path) — Path=="" means the whole object
+	addrElem          // element (or a field path inside an element) of a slice / top-level array backing store
+	addrArrIdx        // element of an array-typed leaf inside an object
 )
 
 type Addr struct {
@@ -37,6 +38,7 @@ type Addr struct {
 	FT   types.Type // type found at Path
 	// addrElem
 	SliceID Term
+	ElemT   types.Type
 	Index   Term
 }
 
@@ -211,8 +213,6 @@ func zeroLeaf(c *Ctx, l Leaf) Term {
 	switch {
 	case l.Sort == SBool:
 		return TFalse
-	case l.Sort == SStr:
-		return c.StrLit("")
 	case l.Sort.IsBV():
 		return BVLit(0, l.Sort.Width())
 	case l.Sort.IsFP():
